@@ -1848,6 +1848,8 @@ func (g *fgen) typeAssert(x *ssa.TypeAssert, st *state) {
 		return
 	}
 	g.oblige("assert", g.siteLabel(x.Pos(), "type assertion"), ok, x.Pos())
+	// execution continues past a single-result type assertion only if it held
+	g.fact(g.curGuard, ok)
 	rv := g.define(x, r)
 	g.fact(g.curGuard, g.wf(rv.t, x.AssertedType, st.alloc, 0))
 }
